@@ -1,7 +1,7 @@
 /- C20 helpers: the property theorems, proved from the invariant -/
 import Iggy.Sdk.Lemmas.Progress
 namespace Iggy.Sdk
-variable {cfg : CCfg} {pid : Nat} {strat0 : Strat} {srv0 : Srv}
+variable {rew : Bool} {cfg : CCfg} {pid : Nat} {strat0 : Strat} {srv0 : Srv}
 
 theorem mem_incarnations {tr : List Obs} {inc : List Obs} (h : inc ∈ incarnations tr) :
     inc ∈ pastIncs tr ∨ inc = curInc tr := by
@@ -44,7 +44,7 @@ theorem yieldsOf_incarnations_sub (tr : List Obs) : ∀ inc ∈ incarnations tr,
   · exact yieldsOf_pastIncs_sub tr inc h
   · exact yieldsOf_curInc_sub tr
 
-theorem Inv.incarnations_range {sys : Sys} {tr : List Obs} (h : Inv cfg pid strat0 srv0 sys tr) :
+theorem Inv.incarnations_range {sys : Sys} {tr : List Obs} (h : Inv rew cfg pid strat0 srv0 sys tr) :
     ∀ inc ∈ incarnations tr, ∃ a, offsOf inc = List.range' a (offsOf inc).length := by
   intro inc hinc
   rcases mem_incarnations hinc with hp | rfl
@@ -128,7 +128,7 @@ theorem yields_in_order_once (hg : Good cfg strat0) {sys : Sys} {tr : List Obs}
       y.pid = pid ∧ y.msg = msgAt y.msg.off ∧ ∀ l, lastYield pre = some l → y.msg.off = l + 1) tr ∧
     (∀ y ∈ yieldsOf tr, y.msg.off < sys.2.len) ∧
     (∀ inc ∈ incarnations tr, ∃ a, offsOf inc = List.range' a (offsOf inc).length) := by
-  have h := hr.inv hg
+  have h := hr.inv (rew := false) hg
   refine ⟨h.g.yieldOK.mono ?_, fun y hy => (h.g.genuine y hy).2.2, h.incarnations_range⟩
   intro pre x hx y e
   obtain ⟨h1, h2, h3⟩ := hx y e
@@ -139,7 +139,7 @@ theorem first_yield_resumes (hg : Good cfg strat0) {sys : Sys} {tr : List Obs}
     (hr : Reach cfg pid strat0 srv0 sys tr) :
     Always (fun pre x => ∀ y, x = .yield y → lastYield pre = none →
       ∃ pre' b r, pre = pre' ++ [.polled b r] ∧ y.msg.off = firstOff strat0 b) tr := by
-  refine (hr.inv hg).g.yieldOK.mono ?_
+  refine (hr.inv (rew := false) hg).g.yieldOK.mono ?_
   intro pre x hx y e hl
   have := (hx y e).2.2
   rw [hl] at this; exact this
@@ -148,9 +148,9 @@ theorem commit_le_yielded (hg : Good cfg strat0) {sys : Sys} {tr : List Obs}
     (hr : Reach cfg pid strat0 srv0 sys tr) :
     Always (fun pre x => ∀ off ok, x = .store off ok → ok = true ∧ off ∈ offsOf pre) tr ∧
     (cfg.polling = false → sys.2.stored = srv0.stored ∨ ∃ o ∈ offsOf tr, sys.2.stored = some o) := by
-  have h := hr.inv hg
+  have h := hr.inv (rew := false) hg
   refine ⟨h.g.storeOK, fun hp => ?_⟩
-  rcases h.g.srvYielded hp with e | ⟨o, e, ho⟩
+  rcases h.g.srvYielded rfl hp with e | ⟨o, e, ho⟩
   · exact Or.inl e
   · exact Or.inr ⟨o, ho, e⟩
 
@@ -158,51 +158,48 @@ theorem commit_le_fetched (hg : Good cfg strat0) {sys : Sys} {tr : List Obs}
     (hr : Reach cfg pid strat0 srv0 sys tr) :
     (sys.2.stored = srv0.stored ∨ ∃ o ∈ fetchedOf tr, sys.2.stored = some o) ∧
     (∀ o ∈ offsOf tr, o ∈ fetchedOf tr) := by
-  have h := hr.inv hg
+  have h := hr.inv (rew := false) hg
   refine ⟨?_, h.g.yFetched⟩
-  rcases h.g.srvFetched with e | ⟨o, e, ho⟩
+  rcases h.g.srvFetched rfl with e | ⟨o, e, ho⟩
   · exact Or.inl e
   · exact Or.inr ⟨o, ho, e⟩
 
 theorem polled_stored (hg : Good cfg strat0) {sys : Sys} {tr : List Obs}
     (hr : Reach cfg pid strat0 srv0 sys tr) : Always (PolledOK cfg srv0) tr :=
-  (hr.inv hg).g.polledOK
+  ((hr.inv (rew := false) hg).g.polledOK rfl)
 
 theorem no_skip_across_incarnations (hg : Good cfg .next) (hpol : cfg.polling = false) {sys : Sys} {tr : List Obs}
     (hr : Reach cfg pid .next srv0 sys tr) :
     (∀ o ∈ offsOf tr, resume srv0.stored ≤ o) ∧
     (∀ o o', o' ∈ offsOf tr → resume srv0.stored ≤ o → o ≤ o' → o ∈ offsOf tr) :=
-  covered_of_trace hpol tr (hr.inv hg).g.yieldOK (hr.inv hg).g.polledOK
+  covered_of_trace hpol tr (hr.inv (rew := false) hg).g.yieldOK ((hr.inv (rew := false) hg).g.polledOK rfl)
 
-/-- two incarnations (of any two schedules) that start at the same message yield the same sequence, as
-far as both go -/
-theorem yields_schedule_independent (hg : Good cfg strat0) {sys₁ sys₂ : Sys} {tr₁ tr₂ : List Obs}
-    {srv₁ srv₂ : Srv}
-    (h₁ : Reach cfg pid strat0 srv₁ sys₁ tr₁) (h₂ : Reach cfg pid strat0 srv₂ sys₂ tr₂)
-    (inc₁ inc₂ : List Obs) (hi₁ : inc₁ ∈ incarnations tr₁) (hi₂ : inc₂ ∈ incarnations tr₂)
-    (hhead : (yieldsOf inc₁).head? = (yieldsOf inc₂).head?) (hlen : (yieldsOf inc₁).length ≤ (yieldsOf inc₂).length) :
-    yieldsOf inc₁ = (yieldsOf inc₂).take (yieldsOf inc₁).length := by
-  have key : ∀ {srv : Srv} {sys : Sys} {tr : List Obs}, Reach cfg pid strat0 srv sys tr → ∀ inc ∈ incarnations tr,
+/-- what an incarnation yielded is the run of the server's messages from its first offset on -/
+theorem Inv.yields_run {sys : Sys} {tr : List Obs} (hI : Inv rew cfg pid strat0 srv0 sys tr) :
+    ∀ inc ∈ incarnations tr,
       ∃ a, yieldsOf inc = (List.range' a (yieldsOf inc).length).map (fun o => (⟨pid, msgAt o⟩ : Yield)) := by
-    intro srv sys tr h inc hinc
-    have hI := h.inv hg
-    obtain ⟨a, ha⟩ := hI.incarnations_range inc hinc
-    refine ⟨a, ?_⟩
-    have hgen : ∀ y ∈ yieldsOf inc, y = ⟨pid, msgAt y.msg.off⟩ := by
-      intro y hy
-      obtain ⟨h1, h2, _⟩ := hI.g.genuine y (yieldsOf_incarnations_sub tr inc hinc y hy)
-      cases y with
-      | mk p m => simp only at h1 h2 ⊢; rw [h1, ← h2]
-    have hlen' : (offsOf inc).length = (yieldsOf inc).length := by simp [offsOf]
-    rw [← hlen', ← ha, offsOf, List.map_map]
-    conv => lhs; rw [← List.map_id (yieldsOf inc)]
-    apply List.map_congr_left
+  intro inc hinc
+  obtain ⟨a, ha⟩ := hI.incarnations_range inc hinc
+  refine ⟨a, ?_⟩
+  have hgen : ∀ y ∈ yieldsOf inc, y = ⟨pid, msgAt y.msg.off⟩ := by
     intro y hy
-    simpa using hgen y hy
-  obtain ⟨a₁, e₁⟩ := key h₁ inc₁ hi₁
-  obtain ⟨a₂, e₂⟩ := key h₂ inc₂ hi₂
-  generalize yieldsOf inc₁ = l₁ at *
-  generalize yieldsOf inc₂ = l₂ at *
+    obtain ⟨h1, h2, _⟩ := hI.g.genuine y (yieldsOf_incarnations_sub tr inc hinc y hy)
+    cases y with
+    | mk p m => simp only at h1 h2 ⊢; rw [h1, ← h2]
+  have hlen' : (offsOf inc).length = (yieldsOf inc).length := by simp [offsOf]
+  rw [← hlen', ← ha, offsOf, List.map_map]
+  conv => lhs; rw [← List.map_id (yieldsOf inc)]
+  apply List.map_congr_left
+  intro y hy
+  simpa using hgen y hy
+
+/-- two runs of the server's messages with the same head: the shorter is a prefix of the longer -/
+theorem runs_prefix {pid : Nat} {l₁ l₂ : List Yield}
+    (e₁ : ∃ a, l₁ = (List.range' a l₁.length).map (fun o => (⟨pid, msgAt o⟩ : Yield)))
+    (e₂ : ∃ a, l₂ = (List.range' a l₂.length).map (fun o => (⟨pid, msgAt o⟩ : Yield)))
+    (hhead : l₁.head? = l₂.head?) (hlen : l₁.length ≤ l₂.length) : l₁ = l₂.take l₁.length := by
+  obtain ⟨a₁, e₁⟩ := e₁
+  obtain ⟨a₂, e₂⟩ := e₂
   cases hn₁ : l₁.length with
   | zero => have : l₁ = [] := List.length_eq_zero_iff.mp hn₁; subst this; simp
   | succ n₁ =>
@@ -217,5 +214,16 @@ theorem yields_schedule_independent (hg : Good cfg strat0) {sys₁ sys₂ : Sys}
         simpa using this
       subst ha
       rw [e₁, e₂, ← List.map_take, List.take_range'_of_length_ge (by omega)]
+
+/-- two incarnations (of any two schedules) that start at the same message yield the same sequence, as
+far as both go -/
+theorem yields_schedule_independent (hg : Good cfg strat0) {sys₁ sys₂ : Sys} {tr₁ tr₂ : List Obs}
+    {srv₁ srv₂ : Srv}
+    (h₁ : Reach cfg pid strat0 srv₁ sys₁ tr₁) (h₂ : Reach cfg pid strat0 srv₂ sys₂ tr₂)
+    (inc₁ inc₂ : List Obs) (hi₁ : inc₁ ∈ incarnations tr₁) (hi₂ : inc₂ ∈ incarnations tr₂)
+    (hhead : (yieldsOf inc₁).head? = (yieldsOf inc₂).head?) (hlen : (yieldsOf inc₁).length ≤ (yieldsOf inc₂).length) :
+    yieldsOf inc₁ = (yieldsOf inc₂).take (yieldsOf inc₁).length :=
+  runs_prefix ((h₁.inv (rew := false) hg).yields_run inc₁ hi₁) ((h₂.inv (rew := false) hg).yields_run inc₂ hi₂)
+    hhead hlen
 
 end Iggy.Sdk
